@@ -21,6 +21,7 @@ structure St where
   sinceTraffic : Nat := 0                 -- ms since the last op that was not an advance
   sinceMiner : Nat := 0                   -- ms since the miner last sent something
   hadTask : Bool := false                 -- a contract task was added (connections then come and go with the tasks)
+  switching : Bool := false               -- a connection was dialled for a change of destination that has not been announced to the miner yet
 
 def bump (l : List (String × Nat)) (p : String) (n : Nat := 1) : List (String × Nat) :=
   match l.find? (·.1 = p) with
@@ -65,7 +66,13 @@ def mon (st : St) (op : List String) (outs : List (List String)) : St × List St
     let failed := outs.any (fun o => o.take 2 = ["factory", "dial"] && o.getLast? == some "refused")
     -- clauses
     let c1 := if runs ≤ 1 ∧ pipes ≤ 1 then [] else [s!"C13 more than one relay loop: {runs} Proxy.Run and {pipes} Pipe.Run goroutines"]
-    let c2 := if live.length ≤ st.maxCached then [] else
+    -- "plus one being established during a switch": a change of destination is in progress from the dial until the
+    -- miner has been given the new destination's job (clean notify) — it may wait for a pool answer in between
+    let announced := outs.any fun o => match o with
+      | "tominer" :: "notify" :: r => r.any (· == "clean=true") | _ => false
+    let anyClosed := outs.any fun o => match o with | ["topool", _, "closed"] => true | _ => false
+    let switchingNow : Bool := (!newDials.isEmpty && !announced) || (st.switching && !announced && !anyClosed && newDials.isEmpty)
+    let c2 := if live.length ≤ st.maxCached + (if switchingNow then 1 else 0) then [] else
       [s!"C13 the session holds {live.length} pool connections ({liveTxt}), the configured maximum is {st.maxCached}"]
     let c3 := if nowExited ∧ (live ≠ [] ∨ runs ≠ 0 ∨ pipes ≠ 0 ∨ listed ≠ "0") then
       [s!"C13 the session has ended but live={liveTxt} runs={runs} pipes={pipes} listed={listed}"] else []
@@ -94,7 +101,7 @@ def mon (st : St) (op : List String) (outs : List (List String)) : St × List St
       | ["minerclose"] => true
       | ["shutdown"] => true
       | _ => nowExited || switched || failed ||
-             decide (st4.sinceTraffic + 1000 ≥ st.idleMs) || !newDials.isEmpty
+             decide (st4.sinceTraffic + 1000 ≥ st.idleMs) || decide (st4.sinceMiner + 1000 ≥ st.idleMs) || !newDials.isEmpty
     let c7 := if closes.isEmpty || explained || st1.hadTask then [] else
       [s!"C06 the proxy closed the healthy pool connection {closes} without a failure, a switch, idleness or the end of the session"]
     let c8 := match op with
@@ -103,7 +110,7 @@ def mon (st : St) (op : List String) (outs : List (List String)) : St × List St
       | _ => []
     let c9 := if !nowExited ∧ st4.sinceMiner > st.idleMs + 2000 then
       [s!"C13 the miner sent nothing for {st4.sinceMiner} ms and its connection was not closed (configured idle time {st.idleMs} ms)"] else []
-    (st4, c1 ++ c2 ++ c3 ++ c4 ++ c5 ++ c6 ++ c7 ++ c8 ++ c9)
+    ({ st4 with switching := switchingNow && !nowExited }, c1 ++ c2 ++ c3 ++ c4 ++ c5 ++ c6 ++ c7 ++ c8 ++ c9)
 
 def monitor : Monitor := { σ := St, init := {}, step := mon }
 
